@@ -422,6 +422,15 @@ def rule_OD5(rep, prog):
                     "linkage and the submitting context disappears - dispatch_assert_queue on the submitting queue traps, dispatch_assert_queue_not passes"
                     % (bare[0][3] if bare else None), sample={"saves": len(save)})
 
+    # dispatch_async_and_wait run by the CALLING thread (it locked the whole hierarchy itself): the item runs as an item of the queue it was submitted to
+    fn = prog.fn("_dispatch_async_and_wait_invoke_and_complete_recurse")
+    rep.saw(fn)
+    pushes = calls_named(fn, ("_dispatch_thread_frame_push", "_dispatch_thread_frame_push_and_rebase"))
+    rep.require(rid, bool(pushes) and all(tuple(root_of(fn, c.ops[1])[:2]) == ("a", 0) for c in pushes), (pushes[0].loc if pushes else fn.file), fn.name,
+                "and-wait-runs-as-bottom-queue",
+                "_dispatch_async_and_wait_invoke_and_complete_recurse pushes a frame for a queue other than the one the item was submitted to (its first parameter): with a "
+                "hierarchy of two or more levels dispatch_get_specific misses the keys of the submitted-to and intermediate queues, the current-queue label names the bottom "
+                "queue and dispatch_assert_queue(top) traps", sample={"pushes": len(pushes)})
     # the main queue serviced from a run-loop callout hides whatever frames the callout happens to be nested in: its drain frame is pushed with the
     # linkage cut (rebased onto NULL), so items of the main queue never see the queues of an enclosing dispatch_sync as their own hierarchy
     fn = prog.fn("_dispatch_main_queue_drain")
@@ -432,6 +441,50 @@ def rule_OD5(rep, prog):
                 "_dispatch_main_queue_drain pushes its frame chained to the frames already on the thread instead of rebasing onto an empty linkage: when the run loop "
                 "services the main queue from inside a dispatch_sync block, items of the main queue see the enclosing queues in their hierarchy - "
                 "dispatch_assert_queue_not(outer) traps and dispatch_assert_queue(outer) passes inside a main-queue item", sample={"pushes": len(pushes), "cut": len(cut)})
+
+
+def rule_MP12(rep, prog):
+    rid = rep.rule("C18-MP12", "dispatch_assert_queue_not(q) passes only after BOTH ways of being on q were ruled out: every path to its return has found the drain lock "
+                   "not held by the calling thread AND searched the thread's frames for q (concurrent and global queues are entered without the drain lock, so the "
+                   "lock test alone says nothing about them)", floor=1)
+    fn = prog.fn("dispatch_assert_queue_not")
+    rep.saw(fn)
+    find = calls_named(fn, "_dispatch_thread_frame_find_queue")
+    lock = calls_named(fn, "_dq_state_drain_locked_by_self")
+    rets = [i for i in fn.all_insts() if i.op == "ret"]
+    first = next(iter(fn.all_insts()))
+    if not find or not rets:
+        rep.unknown(rid, "dispatch_assert_queue_not: frame search / return not found")
+        return
+    bare = [r for r in rets if fn.inst_reaches(first, r, avoid_insts=find)]
+    rep.require(rid, not bare, (bare[0].loc if bare else find[0].loc), fn.name, "assert-queue-not-passes-without-frame-search",
+                "dispatch_assert_queue_not can return (accept) without having searched the calling thread's frames for the queue: a queue that is in the current "
+                "hierarchy but not drain-locked by this thread - a concurrent queue running the item, a global queue, a queue entered as a dispatch_sync reader - is "
+                "silently accepted", sample={"returns": len(rets)})
+    if lock:
+        bare2 = [r for r in rets if fn.inst_reaches(first, r, avoid_insts=lock)]
+        rep.require(rid, not bare2, lock[0].loc, fn.name, "assert-queue-not-passes-without-lock-test",
+                    "dispatch_assert_queue_not can accept without having tested the drain lock owner")
+
+
+def rule_AI13(rep, prog, srcdir):
+    rid = rep.rule("C18-AI13", "every documented QoS class is a valid argument of dispatch_queue_attr_make_with_qos_class: evaluated for each QOS_CLASS_* constant "
+                   "(UNSPECIFIED included - it is how an attribute's class is reset) with relative priority 0, the function goes on to rebuild the attribute instead "
+                   "of returning its input unchanged", floor=7)
+    k = consts.get(["QOS_CLASS_USER_INTERACTIVE", "QOS_CLASS_USER_INITIATED", "QOS_CLASS_DEFAULT", "QOS_CLASS_UTILITY", "QOS_CLASS_BACKGROUND", "QOS_CLASS_MAINTENANCE",
+                    "QOS_CLASS_UNSPECIFIED"], srcdir=srcdir)
+    fn = prog.fn("dispatch_queue_attr_make_with_qos_class")
+    rep.saw(fn)
+    rebuild = calls_named(fn, ("_dispatch_queue_attr_to_info", "_dispatch_queue_attr_from_info"))
+    if not rebuild:
+        rep.unknown(rid, "dispatch_queue_attr_make_with_qos_class: attribute rebuild not found")
+        return
+    for name, v in sorted(k.items()):
+        hit, _e = concrete_walk(fn, {("a", 1): v, ("a", 2): 0}, lambda i: i in rebuild)
+        rep.require(rid, hit is not None, fn.file + ":" + str(fn.d.get("line")), fn.name, "qos-class-rejected:%s" % name,
+                    "dispatch_queue_attr_make_with_qos_class(attr, %s, 0) returns its input unchanged (the class is treated as invalid): an attribute that already carries "
+                    "a class cannot be reset, it keeps the old class and relative priority - the result depends on earlier constructor calls" % name,
+                    sample={"class": name, "value": v})
 
 
 def rule_TB9(rep, prog, srcdir):
@@ -687,6 +740,10 @@ def run(rep, tier="quick", srcdir=None, only=None):
         rule_WM6(rep, prog)
     if want("C18-TB7"):
         rule_TB7(rep, prog)
+    if want("C18-MP12"):
+        rule_MP12(rep, prog)
+    if want("C18-AI13"):
+        rule_AI13(rep, prog, srcdir)
     if want("C03-MP7"):
         # an item runs in the hierarchy the queue has NOW: a drain that started under the old target stops before the first item after a retarget, or that
         # item runs under the old target's lock and frames while do_targetq (and dispatch_get_specific) already follow the new one (shared with C03)
